@@ -1,6 +1,7 @@
 package codec
 
 import (
+	"bytes"
 	"fmt"
 	"math"
 	"math/rand"
@@ -222,11 +223,19 @@ func tagsOf(ns []Node, acc *[]string) {
 func (g *Gen) RandomCase(lookalike bool, withTrailer bool) *Case {
 	g.used = map[string]bool{}
 	t := stdTags
-	if g.R.Intn(5) == 0 { // configurable framing tags
+	if g.R.Intn(4) == 0 { // configurable framing tags
 		alts := []Tags{
 			{S2B("1008"), S2B("1009"), S2B("1035"), S2B("1010")},
 			{S2B("8"), S2B("9"), S2B("35"), S2B("93")},
 			{S2B("1"), S2B("2"), S2B("3"), S2B("4")},
+			// framing tags that are decimal suffixes / prefixes of one another
+			{S2B("135"), S2B("9"), S2B("35"), S2B("10")},
+			{S2B("18"), S2B("9"), S2B("8"), S2B("10")},
+			{S2B("8"), S2B("935"), S2B("35"), S2B("10")},
+			{S2B("8"), S2B("9"), S2B("35"), S2B("135")},
+			{S2B("35"), S2B("359"), S2B("5"), S2B("3510")},
+			{S2B("8"), S2B("98"), S2B("9"), S2B("89")},
+			{S2B("110"), S2B("10"), S2B("1"), S2B("0")},
 		}
 		t = alts[g.R.Intn(len(alts))]
 	}
@@ -250,7 +259,7 @@ func (g *Gen) RandomCase(lookalike bool, withTrailer bool) *Case {
 		look = append(look, t.Bs.String(), t.Bl.String(), t.Mt.String(), t.Cs.String())
 	}
 	p := []float64{0.2, 0.5, 0.8, 1.0}[g.R.Intn(4)]
-	m := Msg{Tags: t, BeginString: ToB(g.pick([]string{"FIX.4.4", "FIX.4.2", "FIXT.1.1", "F"})),
+	m := Msg{Tags: t, BeginString: ToB(g.pick([]string{"FIX.4.4", "FIX.4.4", "FIX.4.2", "FIXT.1.1", "F", "F35=X", "9=5", "10=000", "FIX" + t.Mt.String() + "=A", t.Bl.String() + "=7"})),
 		MsgType: ToB(g.pick([]string{"A", "0", "D", "8", "AE", "XY1"})),
 		Header:  g.populate(hdrT, p, look, false), Body: g.populate(bodyT, p, look, false), Trailer: g.populate(trlT, p, look, false)}
 	m.Norm()
@@ -427,7 +436,33 @@ func (g *Gen) RawInputs() []*RawObs {
 		}
 		return b
 	}
-	switch g.R.Intn(6) {
+	// the fields of a correctly framed message in another order (the framing fields anywhere: CheckSum first, BodyLength last,
+	// one of them twice): a length check that only adds up field lengths is satisfied by every permutation
+	reorder := func() []byte {
+		p := append([]byte("35="+tm.MsgType.String()+"\x01"), fieldy(g.R.Intn(6))...)
+		fr := Frame(tm.Tags, "FIX.4.4", p)
+		fs := bytes.SplitAfter(fr, []byte{1})
+		if len(fs) > 0 && len(fs[len(fs)-1]) == 0 {
+			fs = fs[:len(fs)-1]
+		}
+		switch g.R.Intn(4) {
+		case 0: // CheckSum first
+			fs = append([][]byte{fs[len(fs)-1]}, fs[:len(fs)-1]...)
+		case 1: // rotation
+			k := g.R.Intn(len(fs))
+			fs = append(append([][]byte{}, fs[k:]...), fs[:k]...)
+		case 2: // a framing field twice
+			k := []int{0, 1, len(fs) - 1}[g.R.Intn(3)]
+			at := g.R.Intn(len(fs) + 1)
+			fs = append(append(append([][]byte{}, fs[:at]...), fs[k]), fs[at:]...)
+		default:
+			g.R.Shuffle(len(fs), func(i, j int) { fs[i], fs[j] = fs[j], fs[i] })
+		}
+		return bytes.Join(fs, nil)
+	}
+	switch g.R.Intn(8) {
+	case 6, 7:
+		in = reorder()
 	case 0:
 		in = small(g.R.Intn(12))
 	case 1:
